@@ -287,6 +287,18 @@ fn main() {
             let s = Sector::new(pos(rng), d, start.deg(), sweep.deg());
             check(ctx, "sector", &s, &|| format!("Sector {{ top_left: {:?}, diameter: {}, start: {} deg, sweep: {} deg }}", s.top_left, d, start, sweep), rng);
         });
+        // sectors whose sweep is tiny but not zero, starting on or next to the axes and diagonals
+        // (a gauge that has just started): the two boundary half planes nearly coincide there
+        let snd = run.tier(20_000u64, 600_000u64);
+        run.generate("sector-near-degenerate-sweeps", snd, false, 0.2, |ctx, _idx, rng| {
+            let d = rng.u32r(0, 45);
+            let base = (rng.i32r(-8, 16) * 45) as f32;
+            let delta = *rng.pick(&[0.0f32, 0.0, 0.01, -0.01, 0.03, -0.03, 0.05, -0.05, 0.2, -0.2]);
+            let mag = *rng.pick(&[1e-4f32, 0.001, 0.005, 0.01, 0.02, 0.03, 0.05, 0.056, 0.1, 0.2, 0.32, 0.5, 1.0]);
+            let (start, sweep) = (base + delta, if rng.chance(1, 2) { mag } else { -mag });
+            let s = Sector::new(pos(rng), d, start.deg(), sweep.deg());
+            check(ctx, "sector", &s, &|| format!("Sector {{ top_left: {:?}, diameter: {}, start: {} deg, sweep: {} deg }}", s.top_left, d, start, sweep), rng);
+        });
         // display-scale ellipses, circles and rounded rectangles (both sides in the hundreds): the full
         // probe costs width x height contains() calls, so here the rows of points() are walked once
         // (row-major, one contiguous run per row) and contains() is probed at both ends of every run
